@@ -16,8 +16,7 @@ os.environ["LC_ALL"] = "C.UTF-8"     # the grid contains non-ASCII strings: TLC 
 
 MODULE_MC = "MC_Ribbit"
 MODULE_T = "T_Ribbit"
-NOFILE = 200          # descriptor limit of the driver process in the flood family
-FLOOD_N = 300
+FLOOD_N = 120         # sockets of the flood group; the driver leaves the server descriptors for half of them
 MANY = 40
 
 
@@ -129,9 +128,11 @@ def model_check(ctx, kd):
 
     from concurrent.futures import ThreadPoolExecutor
     with ThreadPoolExecutor(max_workers=3) as ex:
-        teeth = dict(ex.map(tooth, (("sequential_server", "sequential", (), "{1, 2}", "Independence"),
-                                    ("sequential_no_http_timeout", "sequential", ("F15f",), "{1, 2}", "liveness"),
-                                    ("F15f_no_http_timeout", "task_per_conn", ("F15f",), "{1, 2}", "liveness"))))
+        plan = [("sequential_server", "sequential", (), "{1, 2}", "Independence"),
+                ("F15f_no_http_timeout", "task_per_conn", ("F15f",), "{1, 2}", "liveness")]
+        if not ctx.quick:
+            plan.append(("sequential_no_http_timeout", "sequential", ("F15f",), "{1, 2}", "liveness"))
+        teeth = dict(ex.map(tooth, plan))
     ctx.cov["model_teeth"] = teeth
     ctx.stage("mc-teeth", **{k: v["violated"] for k, v in teeth.items()})
     if any(v["expected"] != v["violated"] for v in teeth.values()):
@@ -219,7 +220,7 @@ def execute(ctx, family, progs, n, par=16):
     trace = ctx.path(f"trace_{family}.ndjson")
     big = (1 << 20) if ctx.quick else (8 << 20)
     if family == "flood":
-        d = lib.run_driver("drv_ribbit", ["--programs", progs, "--out", trace, "--par", 1, "--nofile", NOFILE,
+        d = lib.run_driver("drv_ribbit", ["--programs", progs, "--out", trace, "--par", 1, "--flood",
                                           "--port-base", 10600, "--port-span", 200], timeout=1500)
     elif family == "slow":
         d = lib.run_driver("drv_ribbit", ["--programs", progs, "--out", trace, "--par", 64, "--big", big,
@@ -241,7 +242,7 @@ def program_of(evs):
 
 def judge_only(ctx, trace, source, kd):
     cfg = t_cfg(ctx, kd)
-    v = lib.judge(ctx, MODULE_T, cfg, trace, max_events=2500 if ctx.quick else 10000)
+    v = lib.judge(ctx, MODULE_T, cfg, trace, max_events=6000 if ctx.quick else 10000)
     v["violations"] = sorted(set(v["violations"]))
     return v
 
@@ -261,59 +262,51 @@ def judge_trace(ctx, trace, source, kd, classify=True):
 
 
 # --------------------------------------------------------------------------- self-test, replay
-def selftest(ctx, trace, kd):
-    """Binding self-test: corrupt one typed field / drop one event / turn one close into data -> the monitor must flag it."""
-    lines = lib.read_lines(trace)[:3000]
-    cut = max(i for i, l in enumerate(lines) if lib.is_new(l))
-    lines = lines[:cut]
+def _prefix(trace, limit):
+    """The first runs of a trace (whole runs only, about `limit` lines)."""
+    lines = lib.read_lines(trace)[:limit + 400]
+    cuts = [i for i, l in enumerate(lines) if lib.is_new(l) and i <= limit]
+    return lines[:cuts[-1]] if len(cuts) > 1 else lines
+
+
+def selftest(ctx, fields_trace, conc_trace, kd):
+    """Binding self-test, one monitor run over  base | corrupted | dropped | base' | data-reply :
+    corrupt one typed cell / drop one event / turn the close of a malformed request into a data reply -> the
+    monitor must flag exactly that (runs are judged independently, so the copies do not disturb each other)."""
+    f = _prefix(fields_trace, 700)
+    c = _prefix(conc_trace, 500)
     ia = ib = None
-    for i, l in enumerate(lines):
+    for i, l in enumerate(f):
         e = json.loads(l)
-        if e.get("op") == "query" and e["res"]["out"] == "rows" and e["ep"] == "versions" and ia is None and i > 20:
+        if e.get("op") == "query" and e["res"]["out"] == "rows" and e["ep"] == "versions" and ia is None and i > 5:
             ia = i
-        elif e.get("op") == "query" and ia is not None and ib is None and i > ia + 12 and not lib.is_new(lines[i + 1]):
+        elif e.get("op") == "query" and ia is not None and ib is None and i > ia + 8 and i + 1 < len(f) and not lib.is_new(f[i + 1]):
             ib = i
-    if ia is None or ib is None:
-        raise lib.ToolError("binding self-test: no suitable events in the trace")
-    base_p = ctx.path("selftest_0.ndjson"); open(base_p, "w").write("\n".join(lines) + "\n")
-    e = json.loads(lines[ia])
-    cell = next(c for c in e["res"]["rows"][-1] if c["n"] == "BuildConfig")
+    ic = next((i for i, l in enumerate(c) if '"op":"finish"' in l and '"out":"closed"' in l), None)
+    if ia is None or ib is None or ic is None:
+        raise lib.ToolError("binding self-test: no suitable events in the traces")
+    e = json.loads(f[ia])
+    cell = next(x for x in e["res"]["rows"][-1] if x["n"] == "BuildConfig")
     cell["v"] = cell["v"][:-1] + ("0" if cell["v"][-1] != "0" else "1")
-    la = list(lines); la[ia] = json.dumps(e, separators=(",", ":"))
-    pa = ctx.path("selftest_a.ndjson"); open(pa, "w").write("\n".join(la) + "\n")
-    lb = list(lines); del lb[ib]
-    pb = ctx.path("selftest_b.ndjson"); open(pb, "w").write("\n".join(lb) + "\n")
-    cfg = t_cfg(ctx, kd)
-    base = lib.tlc_trace(ctx, MODULE_T, cfg, base_p)
-    va, vb = (lib.tlc_trace(ctx, MODULE_T, cfg, p) for p in (pa, pb))
-    res = {"corrupt_one_field_flagged": (ia + 1) in va["violations"] and (ia + 1) not in base["violations"]
-                                        and len(va["violations"]) == len(base["violations"]) + 1,
-           "drop_one_event_flagged": (ib + 1) in vb["violations"] and len(vb["violations"]) > len(base["violations"])}
-    ctx.cov.setdefault("binding_selftest", {}).update(res)      # families are judged concurrently: never overwrite
+    fa = list(f); fa[ia] = json.dumps(e, separators=(",", ":"))
+    fb = list(f); del fb[ib]
+    e = json.loads(c[ic])
+    e["res"]["outs"] = [{"out": "reply", "status": 200, "rows": 7, "bytes": 700}]
+    cc = list(c); cc[ic] = json.dumps(e, separators=(",", ":"))
+    segs = [("f0", f), ("fa", fa), ("fb", fb), ("c0", c), ("cc", cc)]
+    path = ctx.path("selftest.ndjson")
+    open(path, "w").write("\n".join(l for _, seg in segs for l in seg) + "\n")
+    v = lib.tlc_trace(ctx, MODULE_T, t_cfg(ctx, kd), path)
+    got, off = {}, 0
+    for name, seg in segs:
+        got[name] = {x - off for x in v["violations"] if off < x <= off + len(seg)}
+        off += len(seg)
+    res = {"corrupt_one_field_flagged": got["fa"] == got["f0"] | {ia + 1},
+           "drop_one_event_flagged": (ib + 1) in got["fb"] and len(got["fb"]) > len(got["f0"]),
+           "data_reply_to_malformed_flagged": got["cc"] == got["c0"] | {ic + 1}}
+    ctx.cov["binding_selftest"] = res
     if not all(res.values()):
         raise lib.ToolError(f"binding self-test failed: {res}")
-
-
-def selftest_raw(ctx, trace, kd):
-    """...and on the malformed-request side: a malformed request that is answered with rows must be flagged."""
-    lines = lib.read_lines(trace)[:3000]
-    cut = max(i for i, l in enumerate(lines) if lib.is_new(l))
-    lines = lines[:cut]
-    ic = next((i for i, l in enumerate(lines) if '"op":"finish"' in l and '"out":"closed"' in l), None)
-    if ic is None:
-        raise lib.ToolError("binding self-test: no closed raw connection in the trace")
-    e = json.loads(lines[ic])
-    e["res"]["outs"] = [{"out": "reply", "status": 200, "rows": 7, "bytes": 700}]
-    lc = list(lines); lc[ic] = json.dumps(e, separators=(",", ":"))
-    pc = ctx.path("selftest_c.ndjson"); open(pc, "w").write("\n".join(lc) + "\n")
-    base_p = ctx.path("selftest_c0.ndjson"); open(base_p, "w").write("\n".join(lines) + "\n")
-    cfg = t_cfg(ctx, kd)
-    base = lib.tlc_trace(ctx, MODULE_T, cfg, base_p)
-    vc = lib.tlc_trace(ctx, MODULE_T, cfg, pc)
-    ok = (ic + 1) in vc["violations"] and (ic + 1) not in base["violations"]
-    ctx.cov.setdefault("binding_selftest", {})["data_reply_to_malformed_flagged"] = ok
-    if not ok:
-        raise lib.ToolError("binding self-test failed: a data reply to a malformed request was not flagged")
 
 
 def replay(ctx, kd):
@@ -324,7 +317,7 @@ def replay(ctx, kd):
     trace = ctx.path("replay_trace.ndjson")
     args = ["--programs", p, "--out", trace, "--par", 1]
     if prog.get("fam") == "flood":
-        args += ["--nofile", NOFILE]
+        args += ["--flood"]
     lib.run_driver("drv_ribbit", args)
     v = judge_trace(ctx, trace, "replay", kd, classify=False)
     for l in lib.read_lines(trace):
@@ -346,38 +339,41 @@ def run(ctx):
         return replay(ctx, kd)
     total = distinct = 0
     from concurrent.futures import ThreadPoolExecutor
-    judging = ThreadPoolExecutor(max_workers=2)      # family k is judged while family k+1 is generated and executed
-    waiting = ThreadPoolExecutor(max_workers=2)      # slow / flood: dominated by the server's 10 s read time-out and the
-    pending = []                                     # 45 s the driver waits before it records "still open"
-
-    def judged(fam, trace):
-        v = judge_only(ctx, trace, fam, kd)
-        if fam == "fields":
-            selftest(ctx, trace, kd)
-        if fam == "conc":
-            selftest_raw(ctx, trace, kd)
-        return v
-
+    judging = ThreadPoolExecutor(max_workers=2)      # a family is judged while the next one is generated and executed
+    waiting = ThreadPoolExecutor(max_workers=2)      # slow: dominated by the server's 10 s read time-out and the 45 s of
+    pending = []                                     # server time before the driver records "still open"
+    traces = {}
     try:
         model = judging.submit(model_check, ctx, kd)
         gen = generate(ctx, "static")
         slow = {fam: waiting.submit(execute, ctx, fam, *gen[fam]) for fam in ("slow", "flood")}
         for fam in ("unknown", "fields", "newest", "sample", "conc"):
             progs, n = gen[fam] if fam != "conc" else generate(ctx, "conc", conc=True)["conc"]
-            trace = execute(ctx, fam, progs, n)
+            traces[fam] = trace = execute(ctx, fam, progs, n)
             total += n
             distinct += lib.count_distinct(progs, key=lambda l: l if nontrivial(l) else "")[1]
             if len(ctx.cov["samples"]) < 4:
                 ls = lib.read_lines(trace)[:4000]
                 s, e = lib.run_of_line(ls, min(len(ls) - 1, 900))
                 ctx.cov["samples"].append({"source": f"MC_Ribbit family={fam}", "trace": [json.loads(x) for x in ls[s:e]][:12]})
-            pending.append((fam, trace, judging.submit(judged, fam, trace)))
+            if fam in ("fields", "conc"):     # the two large ones are judged on their own, as soon as they exist
+                pending.append((fam, trace, judging.submit(judge_only, ctx, trace, fam, kd)))
+        selftested = judging.submit(selftest, ctx, traces["fields"], traces["conc"], kd)
         for fam in ("slow", "flood"):
-            trace = slow[fam].result()
+            traces[fam] = slow[fam].result()
             total += gen[fam][1]
             distinct += lib.count_distinct(gen[fam][0])[1]
-            pending.append((fam, trace, judging.submit(judge_only, ctx, trace, fam, kd)))
+        # the small ones share one monitor run
+        rest = ("unknown", "newest", "sample", "slow", "flood")
+        merged = ctx.path("trace_rest.ndjson")
+        with open(merged, "w") as out:
+            for fam in rest:
+                with open(traces[fam]) as f:
+                    for line in f:
+                        out.write(line)
+        pending.append(("+".join(rest), merged, judging.submit(judge_only, ctx, merged, "rest", kd)))
         model.result()
+        selftested.result()
         for fam, trace, fut in pending:
             conclude(ctx, fut.result(), trace, f"MC_Ribbit family={fam}")
     finally:
